@@ -17,15 +17,22 @@ flags only skip work), propagation changes annotations only (`C06_eval_unchanged
 substitution whose assignment `ρ` satisfies keeps the environment in agreement, including
 `add_variable`'s "two different values ⇒ non-constant" rule (`C06_stmt_sound`).
 
-Not a Lean theorem: the lifting to all execution paths (that the concrete values along a run form an
-environment satisfying each executed SSA assignment, and `phi` claims — hypothesis `PhiComplete`).
-That level is decided per run by `checks/c06.py`: node-by-node equality of the real annotations with the Lean
+Path level (`Lemmas/PathValues.lean`): for every SSA CFG whose substitutions assign pairwise different
+variables (`SingleDef`, evaluated on every real dump), every prime, every budget `k` of passes and every
+state that any execution can reach — any order and number of executions of the CFG's substitutions, a
+`phi` taking any one of its arguments (hypothesis `PhiComplete`, the identity of the one known finding),
+calls / arrays / array reads evaluating to anything, unassigned variables (parameters, input signals)
+holding and changing to anything — every claim on every node of the CFG returned by
+`valLoop k` is right (`C06_path_sound`); in particular a claimed branch condition never evaluates to
+another value (`C06_branch_condition`).
+The tie to the code is decided per run by `checks/c06.py`: node-by-node equality of the real annotations with the Lean
 propagation model (all three primes) and a reference interpreter that executes the same SSA CFG
 and compares every value an annotated node takes; `PhiComplete` is evaluated on every instance
 and is the identity of the one known finding.
 -/
 import Circomspect.Model.Propagate
 import Circomspect.Lemmas.ValueLemmas
+import Circomspect.Lemmas.PathValues
 import Circomspect.Props.C16
 
 namespace Circomspect.C06
@@ -148,26 +155,76 @@ example : valInfix "lt" (some (.fe 6)) (some (.fe 1)) 7 = some (.bool true) := b
 
 /-- every claim written on any node of an expression is right under every concrete environment that
     agrees with the abstract one -/
-theorem C06_expr_sound (ρ : VName → Option Val) (env : ValEnv) (hag : Agree ρ env) (e : Expr)
-    (h : SoundE ρ env.prime e) : SoundE ρ env.prime (valExpr env e).1 :=
-  valExpr_sound ρ env hag e h
+theorem C06_expr_sound (ρ : VName → Option Val) (ω : Expr → Option Val) (env : ValEnv) (hag : Agree ρ env) (e : Expr)
+    (h : SoundE ρ ω env.prime e) : SoundE ρ ω env.prime (valExpr env e).1 :=
+  valExpr_sound ρ ω env hag e h
 
 /-- propagation changes annotations only: the value of the expression is untouched -/
-theorem C06_eval_unchanged (ρ : VName → Option Val) (p : Int) (env : ValEnv) (e : Expr) :
-    evalE ρ p (valExpr env e).1 = evalE ρ p e :=
-  evalE_valExpr ρ p env e
+theorem C06_eval_unchanged (ρ : VName → Option Val) (ω : Expr → Option Val) (p : Int) (env : ValEnv) (e : Expr) :
+    evalE ρ ω p (valExpr env e).1 = evalE ρ ω p e :=
+  evalE_valExpr ρ ω p env e
 
 /-- a substitution keeps the abstract environment in agreement with every concrete environment that
     satisfies the assignment -/
-theorem C06_stmt_sound (ρ : VName → Option Val) (env : ValEnv) (hag : Agree ρ env)
+theorem C06_stmt_sound (ρ : VName → Option Val) (ω : Expr → Option Val) (env : ValEnv) (hag : Agree ρ env)
     (a : Ann) (v : VName) (ty : Option VType) (op : String) (rhe : Expr)
-    (hs : SoundE ρ env.prime rhe) (hsat : ρ v = evalE ρ env.prime rhe) :
+    (hs : SoundE ρ ω env.prime rhe) (hsat : ρ v = evalE ρ ω env.prime rhe) :
     Agree ρ (valStmt env (.sub a v ty op rhe)).2.1 :=
-  valStmt_sub_sound ρ env hag a v ty op rhe hs hsat
+  valStmt_sub_sound ρ ω env hag a v ty op rhe hs hsat
 
 /-! non-vacuity: `x + 2` with `x ↦ 3` known and the leaves annotated by an earlier pass: the node gets
     the claim 5 -/
 example : (valExpr ⟨21888242871839275222246405745257275088548364400416034343698204186575808495617, [(⟨"x", none, some 0⟩, .fe 3)], []⟩
     (.infix {} "add" (.var { val := some (.fe 3) } ⟨"x", none, some 0⟩) (.num { val := some (.fe 2) } 2))).1.ann.val = some (.fe 5) := by decide
+
+/-- **path level**: after any number `k` of passes over an unannotated SSA CFG with single definitions,
+    every claim on every statement is right in every reachable state of every execution -/
+theorem C06_path_sound (p : Int) (bs : List Block) (hsd : SingleDef (stmtsOf bs))
+    (hclean : ∀ s, s ∈ stmtsOf bs → NoValS s) (k : Nat) :
+    ∀ σ, Reach p (stmtsOf bs) σ → ∀ s, s ∈ stmtsOf (valLoop k ⟨p, [], []⟩ bs).1 → SoundS σ p s :=
+  value_path_sound p bs hsd (fun σ _ s hs => noValS_sound σ p s (hclean s hs)) k
+
+/-- a `constant branch condition`: if the condition of a branch carries the claim `x`, it evaluates to
+    `x` (or is undefined) in every reachable state, whatever the opaque sub-expressions yield -/
+theorem C06_branch_condition (p : Int) (bs : List Block) (hsd : SingleDef (stmtsOf bs))
+    (hclean : ∀ s, s ∈ stmtsOf bs → NoValS s) (k : Nat) (c : Expr)
+    (hc : Stmt.ite c ∈ stmtsOf (valLoop k ⟨p, [], []⟩ bs).1) (x : Val) (hx : c.ann.val = some x) :
+    ∀ σ, Reach p (stmtsOf bs) σ → ∀ ω y, evalE σ ω p c = some y → y = x := by
+  intro σ hr ω y hy
+  have := C06_path_sound p bs hsd hclean k σ hr _ hc
+  unfold SoundS at this
+  exact sound_top σ ω p c (this ω) x hx y hy
+
+/-- the decidable form of the hypothesis, evaluated by `csmodel pathhyps` on every real dump -/
+theorem C06_singleDef_decidable (P : List Stmt) (h : singleDefB P = true) : SingleDef P := singleDefB_sound P h
+
+/-! non-vacuity of the path theorem: `x = 3; y = x + 2; if (y == 5)` — the hypotheses hold, the branch
+    condition gets the claim `true` after the passes, and the state `x ↦ 3, y ↦ 5` is reachable. -/
+section NonVacuity
+private def px : VName := ⟨"x", none, some 0⟩
+private def py : VName := ⟨"y", none, some 0⟩
+private def demo : List Block := [{ stmts := [
+  .sub {} px (some .local_) "=" (.num {} 3),
+  .sub {} py (some .local_) "=" (.infix {} "add" (.var {} px) (.num {} 2)),
+  .ite (.infix {} "eq" (.var {} py) (.num {} 5))] }]
+
+example : singleDefB (stmtsOf demo) = true := by decide
+example : ∀ s, s ∈ stmtsOf demo → NoValS s := by
+  intro s hs
+  simp only [stmtsOf, demo, List.flatMap_cons, List.flatMap_nil, List.append_nil, List.mem_cons, List.not_mem_nil, or_false] at hs
+  rcases hs with h | h | h <;> subst h <;> simp [NoValS, NoValE]
+example : ((stmtsOf (valLoop 20 ⟨101, [], []⟩ demo).1).map (fun s => match s with | .ite c => c.ann.val | _ => none)) =
+    [none, none, some (.bool true)] := by decide
+example : ∃ σ, Reach 101 (stmtsOf demo) σ ∧ σ px = some (.fe 3) ∧ σ py = some (.fe 5) := by
+  let σ₀ : State := fun _ => none
+  have h0 : Reach 101 (stmtsOf demo) σ₀ := .init _ (fun _ _ _ _ => rfl)
+  have h1 := Reach.step _ _ h0 (Step.assign σ₀ {} px (some .local_) "=" (.num {} 3) (fun _ => none)
+    (by simp [stmtsOf, demo]) rfl)
+  have h2 := Reach.step _ _ h1 (Step.assign _ {} py (some .local_) "=" (.infix {} "add" (.var {} px) (.num {} 2)) (fun _ => none)
+    (by simp [stmtsOf, demo]) rfl)
+  refine ⟨_, h2, ?_, ?_⟩
+  · simp [State.set, px, py, evalE]
+  · simp only [State.set_same]; decide
+end NonVacuity
 
 end Circomspect.C06
